@@ -202,6 +202,30 @@ func structured(kind string, n, param int) ([][]int, error) {
 		for i := step; i < n; i += step {
 			adj[i] = append(adj[i], i-step+1)
 		}
+	case "doubled-path": // every edge of the path twice: each component has a duplicated out-edge
+		for i := 0; i+1 < n; i++ {
+			adj[i] = []int{i + 1, i + 1}
+		}
+	case "two-cycles-chain": // 2-cycles chained by two edges each: several members of one component point to the same next component
+		for i := 0; i+1 < n; i += 2 {
+			adj[i] = append(adj[i], i+1)
+			adj[i+1] = append(adj[i+1], i)
+			if i+2 < n {
+				adj[i] = append(adj[i], i+2)
+				adj[i+1] = append(adj[i+1], i+2)
+			}
+		}
+	case "fan": // node i points to i+1 and, twice, to i+step (parallel long edges)
+		step := param
+		if step < 2 {
+			step = 2
+		}
+		for i := 0; i+1 < n; i++ {
+			adj[i] = []int{i + 1}
+			if i+step < n {
+				adj[i] = append(adj[i], i+step, i+step)
+			}
+		}
 	case "reversed-path": // high ids first: node n-1 is the root
 		for i := n - 1; i > 0; i-- {
 			adj[i] = []int{i - 1}
